@@ -465,13 +465,13 @@ fn case_calls1<T: Elem>(case: u64, args: &Args, ev: &mut Ev) {
                 {
                     let mut st = h.lock();
                     st.fail_at = Some(fail_at);
-                    st.fail_msg = format!("injected at repeated value #{fail_at}");
+                    st.fail_msg = inj_msg("injected at repeated value", fail_at);
                 }
                 let o = interp.many(&qa);
                 h.lock().fail_at = None;
                 ev.add("injected_interp_errors", 1);
                 match &o {
-                    Outcome::Err(k, msg) if k == "OutOfBounds" && *msg == format!("injected at repeated value #{fail_at}") => {}
+                    Outcome::Err(k, msg) if k == "OutOfBounds" && *msg == inj_msg("injected at repeated value", fail_at) => {}
                     other => {
                         ev.violation(
                             "C18:interp-error-not-propagated",
@@ -555,7 +555,7 @@ fn case_calls1<T: Elem>(case: u64, args: &Args, ev: &mut Ev) {
                 {
                     let mut st = h.lock();
                     st.fail_at = Some(fail_at);
-                    st.fail_msg = format!("injected failure #{fail_at} \"quoted\"");
+                    st.fail_msg = inj_msg("injected failure", fail_at);
                 }
                 let o = interp.many(&qa);
                 let calls_after = h.lock().calls.len();
@@ -563,7 +563,7 @@ fn case_calls1<T: Elem>(case: u64, args: &Args, ev: &mut Ev) {
                 ev.add("injected_interp_errors", 1);
                 ev.count("calls_after_failure", if calls_after > fail_at + 1 { "continued" } else { "stopped" });
                 match &o {
-                    Outcome::Err(k, msg) if k == "OutOfBounds" && *msg == format!("injected failure #{fail_at} \"quoted\"") => {}
+                    Outcome::Err(k, msg) if k == "OutOfBounds" && *msg == inj_msg("injected failure", fail_at) => {}
                     other => {
                         ev.violation(
                             "C18:interp-error-not-propagated",
@@ -676,13 +676,13 @@ fn case_calls2<T: Elem>(case: u64, args: &Args, ev: &mut Ev) {
                 {
                     let mut st = h.lock();
                     st.fail_at = Some(fail_at);
-                    st.fail_msg = format!("2-D injected #{fail_at}");
+                    st.fail_msg = inj_msg("2-D injected", fail_at);
                 }
                 let o = interp.many(&qx, &qy);
                 h.lock().fail_at = None;
                 ev.add("injected_interp_errors", 1);
                 match &o {
-                    Outcome::Err(k, msg) if k == "OutOfBounds" && *msg == format!("2-D injected #{fail_at}") => {}
+                    Outcome::Err(k, msg) if k == "OutOfBounds" && *msg == inj_msg("2-D injected", fail_at) => {}
                     other => {
                         ev.violation("C18:interp-error-not-propagated", &format!("2-D interp_array: caller got {}", other.detail()), case, replay.clone());
                         return;
@@ -703,6 +703,17 @@ fn case_calls2<T: Elem>(case: u64, args: &Args, ev: &mut Ev) {
             }
         }
     });
+}
+
+/// the text of an injected strategy error: mostly a recognisable marker, but also the texts a
+/// terse strategy really returns - empty, blank, multi-line
+fn inj_msg(tag: &str, k: usize) -> String {
+    match k % 5 {
+        1 => String::new(),
+        3 => "  ".to_string(),
+        4 => format!("{tag}\nsecond line #{k}"),
+        _ => format!("{tag} #{k} \"quoted\""),
+    }
 }
 
 fn main() {
